@@ -597,7 +597,7 @@ def _check_seek(R):
 
 
 def _check_feed(R):
-    f = R.need_fn(L.FOLLOW_EXEC)
+    f = L.exec_view(R, L.FOLLOW_EXEC)
     lps = [l for l in L.input_loops(f) if re.search(L.FOLLOW_NEXT, short(l.next.name)) and l.ok]
     ex = PR.calls_matching(f, L.ENGINE_EXEC)
     if len(lps) != 1 or len(ex) != 1:
